@@ -739,3 +739,91 @@ def check_typelevel(ctx, rule, prefix, minimum, unit="typelevel"):
         ctx.inst(rule, msg, ok, sa["loc"], "static_assert %s" % ("holds" if ok else "FAILS on the current tree"))
     if n < minimum:
         raise AnalysisBroken("type-level witnesses with prefix %r: found %d, expected at least %d" % (prefix, n, minimum))
+
+
+# ---- K: a local pointer into the container's storage is stale after a reallocation ---------------------------
+
+def check_stale_buffer(ctx, unit, classes, rule="K.stale-buffer"):
+    ctx.rule(rule, "a local that designates the container's storage (from a storage accessor such as _get_container() or a copy "
+             "of the buffer field) is not dereferenced after a call that may replace that storage (_ensure_capacity, rehash, "
+             "resize ...) without being fetched again", len(classes))
+    for cls in classes:
+        for rec in recs_of(unit, cls):
+            fns = cls_fns(unit, rec["qn"])
+            by_did = {f.did: f for f in fns}
+            ptr_fields = {fl["n"] for fl in rec["fields"] if fl.get("ptr")}
+            reads, writes = {}, {}
+            for f in fns:
+                r, w = set(), set()
+                for n in f.events():
+                    if n.kind == "MemberExpr" and n.get("mk") == "Field" and path(n) and path(n)[0] == "this" and len(path(n)) == 2:
+                        r.add(n.m)
+                    ww = write_of(n)
+                    if ww and ww[0] and ww[0][0] == "this" and len(ww[0]) >= 2 and n.kind != "CtorInit":
+                        w.add(ww[0][1])
+                reads[f.did], writes[f.did] = r, w
+            changed = True
+            while changed:
+                changed = False
+                for f in fns:
+                    for n in f.events():
+                        if n.is_call() and n.callee and n.callee["did"] in by_did and n.callee["did"] != f.did:
+                            obj = n.child("obj") if n.kind == "CXXMemberCallExpr" else None
+                            if obj is not None and path(obj) == ("this",):
+                                c = n.callee["did"]
+                                if not reads[c] <= reads[f.did]:
+                                    reads[f.did] |= reads[c]; changed = True
+                                if not writes[c] <= writes[f.did]:
+                                    writes[f.did] |= writes[c]; changed = True
+            n_locals = 0
+            for f in fns:
+                if f.kind == "dtor":
+                    continue
+                inits = RA.local_inits(f)
+                dep = {}
+                for did, init in inits.items():
+                    v = std_unwrap(init)
+                    if not ((v.get("t") or "").rstrip().endswith("*")):
+                        continue
+                    if v.kind == "CXXMemberCallExpr" and v.callee and v.callee["did"] in by_did and path(v.child("obj")) == ("this",):
+                        r = reads[v.callee["did"]] & (ptr_fields | {"_capacity", "_size"})
+                        if r & ptr_fields:
+                            dep[did] = r
+                    else:
+                        p = path(v)
+                        if p and p[0] == "this" and len(p) == 2 and p[1] in ptr_fields:
+                            dep[did] = {p[1]}
+                if not dep:
+                    continue
+                n_locals += len(dep)
+                bad = []
+
+                def transfer(n, s, f=f, dep=dep):
+                    if n.kind == "DeclStmt":
+                        for d in n.get("decls", []):
+                            if d["d"] in dep:
+                                s = s | {d["d"]}
+                    if n.is_call() and n.callee and n.callee["did"] in by_did and n.kind == "CXXMemberCallExpr" \
+                            and path(n.child("obj")) == ("this",):
+                        w = writes[n.callee["did"]]
+                        s = frozenset(d for d in s if not (dep[d] & w))
+                    ww = write_of(n)
+                    if ww and ww[0] and ww[0][0] == "this" and len(ww[0]) == 2 and n.kind != "CtorInit":
+                        # a direct store to the buffer field: locals copied from it keep the OLD block on purpose
+                        # (old = _ptr; _ptr = p; free(old)) — only a later *dereference* is suspicious
+                        s = frozenset(d for d in s if ww[0][1] not in dep[d])
+                    deref = None
+                    if n.kind == "ArraySubscriptExpr":
+                        deref = std_unwrap(n.children[0])
+                    elif n.kind == "UnaryOperator" and n.op == "*":
+                        deref = std_unwrap(n.children[0])
+                    elif n.kind == "MemberExpr" and n.get("arrow") and n.children:
+                        deref = std_unwrap(n.children[0])
+                    if deref is not None and deref.kind == "DeclRefExpr" and deref.d["d"] in dep and deref.d["d"] not in s:
+                        bad.append("%s is dereferenced at %s after the storage it points into may have been replaced" % (deref.n, n.loc))
+                    return [s]
+                flow.run(f, [frozenset()], transfer, None, limit=200000)
+                ctx.inst(rule, "%s::%s" % (cls, f.sig.split("::")[-1]), not bad, f.loc,
+                         "; ".join(sorted(set(bad))[:2]) if bad else "%d storage pointers, none used after a reallocating call" % len(dep), f)
+            if n_locals == 0:
+                ctx.broken("%s: no local storage pointers found (anchor vanished)" % rec["qn"])
